@@ -14,6 +14,7 @@ CONSTANTS
   Deterministic = TRUE
   Preamble <- NoPreamble
   Traffic = FALSE
+  Faults = FALSE
   Emit = TRUE
 VIEW GenView
 INVARIANTS EmitState
